@@ -249,12 +249,12 @@ def Socket_readData (s : Sock) (maxlen : Int) : Sock × Bytes × Int :=
     (s, data, (0 : Int))
   else
     let size : Int := (min (Cxx.size s.readBuffer) maxlen)
-    let (s, data) :=
+    let data :=
       if (decide (size > (0 : Int))) then
         let data : Bytes := (Cxx.left s.readBuffer size)
-        (s, data)
+        data
       else
-        (s, data)
+        data
     let s := { s with readBuffer := (Cxx.removeAt s.readBuffer (0 : Int) size) }
     let s := { s with dataRead := (s.dataRead + size) }
     (s, data, size)
